@@ -232,6 +232,12 @@ func (b *BitcoinOnChain) PrepareSpendingTransaction(swapParams *swap.OpeningPara
 		}
 	}
 
+	// The fee (and the 200 sat deducted above) can eat up the whole swap
+	// output, with a small swap in times of high fees: a transaction with an
+	// output that is not positive is invalid, do not build and sign it.
+	if spendingTx.TxOut[0].Value <= int64(fee) {
+		return nil, nil, nil, errors.New("fee exceeds the value of the swap output")
+	}
 	spendingTx.TxOut[0].Value = spendingTx.TxOut[0].Value - int64(fee)
 
 	outputFetcher := txscript.NewCannedPrevOutputFetcher(scriptChangeAddrScriptP2pkh, openingMsgTx.TxOut[vout].Value-200)
